@@ -16,6 +16,9 @@ class P(vlib.Prop):
     harnesses = [
         vlib.Harness("status", "service", "./internal/status/", {"zz_verif_c11_test.go": "C11/status_test.go"},
                      "^TestVerifC11$", "status"),
+        vlib.Harness("conc", "service", "./internal/status/",
+                     {"zz_verif_c11_test.go": "C11/status_test.go", "zz_verif_c11conc_test.go": "C11/conc_test.go"},
+                     "^TestVerifC11Conc$", "status"),
         vlib.Harness("shared", "internal/sharedcomponent", ".", {"zz_verif_c11_test.go": "C11/shared_test.go"},
                      "^TestVerifC11Shared$", "sharedcomponent"),
         vlib.Harness("sharedconc", "internal/sharedcomponent", ".", {"zz_verif_c11_test.go": "C11/shared_test.go"},
@@ -29,11 +32,19 @@ class P(vlib.Prop):
             "(8 statuses + ReportOKIfStarting), 48 sequences per case on distinct instances, randomly interleaved; "
             "plus random scripts of 5-60 reports over 1-4 instances (60% legal moves) and concurrent runs "
             "(8 goroutines x 4 instances, linearisation read from the callbacks under the reporter mutex). "
+            "conc: ATOMICITY of a report on the real reporter — a sequential prefix to each of the 8 states, then EVERY ordered pair "
+            "of the 9 reports (and every ordered triple from Starting that contains ReportOKIfStarting; thorough: every triple from "
+            "every state) issued concurrently for the same instance, plus 160 random sets of 3-4 reports over 2 instances, under a forced "
+            "round-robin schedule (the reports queue on the reporter mutex behind a slow watcher; FIFO hand-off mode, so a report made "
+            "of two critical sections has every other queued report run between its halves), plus 30000 free-running races; the "
+            "delivered events must be the model's run for SOME ordering of the concurrent reports (searched in Coq, kind-3 cases, and "
+            "independently in Go). "
             "shared: Start/report/late-Start/Shutdown scripts on the real sharedcomponent.Component; sharedconc: a report "
             "issued from another goroutine while a late instance is inside its replay (forced interleaving). "
             "graph / extensions: the REAL Graph.StartAll/ShutdownAll and Extensions.Start/Shutdown over 1-4 scripted "
             "components that report during Start, at run time and during Shutdown and may fail (lifecycle scripts, "
-            "the automatic-OK clause checked directly). "
+            "the automatic-OK clause, the attribution of a report to the reporting instance and the delivery of every accepted event to "
+            "every status-watcher extension (started or not) checked directly). "
             "A case is non-trivial when at least one event is delivered (status) / a second instance attaches (shared); "
             "distinct = distinct case terms.")
     trusted_base = [
@@ -41,11 +52,15 @@ class P(vlib.Prop):
         "translator T1 (tools/go2coq): reads the newFSM map literal and the Status constants from the current source",
         "hand-written diagram C11/Diagram.v transcribed from docs/component-status.md (the specification)",
         "Go harnesses harness/C11/*.go + go test -overlay; Go toolchain",
+        "harness conc paces its forced schedule by reading the state word of reporter.mu (sync.Mutex layout, Go 1.23) — pacing only, "
+        "a wrong reading costs sensitivity, never soundness (the verdict is the linearisability search)",
         "modelled by hand, tied by correspondence: fsm.transition, reporter.ReportStatus/ReportOKIfStarting, hostWrapper.Report/addSource, "
         "the status reports of graph.StartAll/ShutdownAll and Extensions.Start/Shutdown around component Start/Shutdown",
     ]
     assumptions = [
-        "each report is atomic (reporter.mu held across lookup, transition and callback)",
+        "each report is atomic (reporter.mu held across lookup, decision, transition and callback) — validated on every run by harness conc "
+        "(linearisability of concurrently issued reports under a forced round-robin schedule and free races); "
+        "check_then_act_auto_ok_refuted shows what fails without it",
         "sync.Mutex, sync.Once and container/ring behave as documented",
         "hostWrapper.addSource (replay + registration) is atomic with respect to hostWrapper.Report (both under hostWrapper.lock); validated by the forced interleaving of harness sharedconc",
     ]
